@@ -71,8 +71,9 @@ fn cpio_mtimes(bytes: &[u8]) -> Option<Vec<u32>> {
 /// source date: such times are clamped away, so the output may not depend on them
 pub fn one_run(cfg: &gen_::Cfg, cfgid: &str, proc_name: &str, wd: &gen_::Workdir, salt: u32) -> Value {
     let mut cfg = cfg.clone();
+    let sd = cfg.source_date.unwrap_or(1_600_000_000);
     for f in cfg.files.iter_mut() {
-        if f.mtime > 1_600_000_000 {
+        if f.mtime > sd {
             f.mtime += salt * 977;
         }
     }
@@ -85,7 +86,7 @@ pub fn one_run(cfg: &gen_::Cfg, cfgid: &str, proc_name: &str, wd: &gen_::Workdir
             cfg.files.reverse();
         }
     }
-    cfg.source_date_offset = [None, Some(0), Some(7200), Some(-28800), Some(19800), Some(-12600)][salt as usize % 6];
+    cfg.source_date_offset = [None, Some(0), Some(7200), Some(i32::MAX), Some(-28800), Some(19800), Some(-12600)][salt as usize % 7];
     let cfg = &cfg;
     let r = guarded(|| -> Result<Value, rpm::Error> {
         let p = gen_::build(cfg, wd)?;
@@ -114,7 +115,7 @@ pub fn one_run(cfg: &gen_::Cfg, cfgid: &str, proc_name: &str, wd: &gen_::Workdir
         let _ = header_times;
         Ok(json!({"event":"Run","cfg":cfgid,"proc":proc_name,"bytes_sha256":hex(&Sha256::digest(&bytes)),
                   "times":times.iter().map(|t| json!([t >> 16, t & 0xFFFF])).collect::<Vec<_>>(),
-                  "source_date":[1_600_000_000u32 >> 16, 1_600_000_000u32 & 0xFFFF],
+                  "source_date":[sd >> 16, sd & 0xFFFF],
                   "signed":cfg.signer.clone().unwrap_or_default(),"len":bytes.len()}))
     });
     match r {
@@ -139,6 +140,20 @@ pub fn run(args: &Args) {
     let n = args.num("n", 12);
     let exe = std::env::current_exe().unwrap();
     let wd = gen_::Workdir::new("c11");
+    // a source date that lies in the future of the build host's clock, with an input file newer still: nothing is
+    // claimed about reproducibility here (the build time is the clock's), but every time must be clamped
+    {
+        let now = std::time::SystemTime::now().duration_since(std::time::UNIX_EPOCH).map(|d| d.as_secs() as u32).unwrap_or(1_800_000_000);
+        for j in 0..4u64 {
+            let mut cfg = make_cfg(args.seed(), 10_000 + j);
+            cfg.source_date = Some(now + 86_400);
+            cfg.signer = if j % 2 == 0 { None } else { Some("ed25519".into()) };
+            for (k, f) in cfg.files.iter_mut().enumerate() {
+                if k % 2 == 0 { f.mtime = now + 2 * 86_400 + k as u32; }
+            }
+            t.emit(one_run(&cfg, &format!("future{j}"), "inproc0", &wd, 0));
+        }
+    }
     // the first run of every configuration, then a pause: the later runs of a configuration start in another
     // second of the wall clock than its first one
     for idx in 0..n {
